@@ -266,6 +266,8 @@ def lottery_case(rng, L):
     if L >= 3 and rng.random() < 0.35:  # gate-local style lists: nothing on the leftmost site(s)
         procs = [p for p in procs if min(p["sites"]) >= 1] or [{"name": "lowering", "sites": [L - 1], "strength": 0.3},
                                                                 {"name": "pauli_z", "sites": [L - 1], "strength": 0.2}]
+    if all(p["strength"] == 0 for p in procs):  # the lottery is only ever run for a model with some positive strength
+        procs[0]["strength"] = 0.3
     nm = NoiseModel([dict(p) for p in procs])
     mps = random_mps(rng, L, 3)
     scale = float(rng.uniform(0.6, 1.0))
